@@ -24,6 +24,15 @@ var externalPrefixes []struct {
 	fn     func(name string) externalFn
 }
 
+// overrideFor returns the harness function that replaces fn on this
+// interpreter (environment stubs declared by the check: file system, hash, ...).
+func (i *interpreter) overrideFor(fn *ssa.Function) *ssa.Function {
+	if len(i.overrides) == 0 || fn.Parent() != nil {
+		return nil
+	}
+	return i.overrides[fn.String()]
+}
+
 func findExternal(fn *ssa.Function) externalFn {
 	name := fn.Name()
 	if len(name) > 2 && name[0] == 'v' && name[1] == 'x' && fn.Signature.Recv() == nil {
@@ -669,6 +678,13 @@ func fmtArg(fr *frame, verb byte, flags string, a value) value {
 		if (verb == 'd' || verb == 'v') && v.w > 0 && flags == "" {
 			_, signed, _ := intInfo(itf.t)
 			return i.symItoa(v, signed)
+		}
+		if verb == 'x' && v.w > 0 && flags == "" {
+			_, signed, _ := intInfo(itf.t)
+			if signed {
+				return i.callNamed("strconv", "FormatInt", []value{normTerm(types.Typ[types.Int64], i.ts.SExt(v, 64)), 16})
+			}
+			return i.callNamed("strconv", "FormatUint", []value{normTerm(types.Typ[types.Uint64], i.ts.ZExt(v, 64)), 16})
 		}
 		if verb == 'c' || verb == 'U' || verb == 'q' || verb == 'x' || verb == 'X' {
 			// render through the model-independent placeholder; content is not observable in our checks
